@@ -171,6 +171,7 @@ func VerifC11Assign(cfgText, auditor string, inputs []string, steps [][]VerifC11
 		st:      makeAuditionState(cfg),
 		collCh:  collCh,
 	}
+	defer log.VerifRelease(au.logger)
 	res.Watchers = make(map[string][]string)
 	for vn, v := range cfg.vars {
 		ws := append([]string(nil), v.watcherNames...)
